@@ -503,6 +503,41 @@ impl World {
             .map(|r| r.expect("farm").1)
             .collect()
     }
+    /// all farms through the paginated public query (page size `limit`)
+    pub fn farms_via_query(&self, limit: u32) -> Result<Vec<Farm>, String> {
+        let mut out: Vec<Farm> = vec![];
+        let mut start_after: Option<String> = None;
+        for _ in 0..200 {
+            let r: Result<mantra_dex_std::farm_manager::FarmsResponse, _> = self.app.wrap().query_wasm_smart(
+                self.a.fm.to_string(),
+                &mantra_dex_std::farm_manager::QueryMsg::Farms { filter_by: None, start_after: start_after.clone(), limit: Some(limit) },
+            );
+            let r = r.map_err(|e| e.to_string())?;
+            let n = r.farms.len();
+            if n == 0 {
+                break;
+            }
+            start_after = Some(r.farms.last().unwrap().identifier.clone());
+            out.extend(r.farms);
+            if (n as u32) < limit {
+                break;
+            }
+        }
+        Ok(out)
+    }
+    /// positions of one receiver through the public query (at most 10 open + 10 closed exist)
+    pub fn positions_via_query(&self, receiver: &str, open: bool) -> Result<Vec<Position>, String> {
+        let r: Result<mantra_dex_std::farm_manager::PositionsResponse, _> = self.app.wrap().query_wasm_smart(
+            self.a.fm.to_string(),
+            &mantra_dex_std::farm_manager::QueryMsg::Positions {
+                filter_by: Some(mantra_dex_std::farm_manager::PositionsBy::Receiver(receiver.to_string())),
+                open_state: Some(open),
+                start_after: None,
+                limit: Some(10),
+            },
+        );
+        r.map(|x| x.positions).map_err(|e| e.to_string())
+    }
     pub fn positions(&self) -> Vec<Position> {
         let st = self.app.contract_storage(&self.a.fm);
         farm_manager::state::POSITIONS
